@@ -9,11 +9,62 @@ NOTE_COMMON = ("Trusted: Coq 8.16.1 kernel and vm_compute; the hand-written Gall
                "harness that compares it with /repo on every run; translators in harness/xlate; Go toolchain. "
                "No axioms are declared; Print Assumptions of every property theorem is recorded in the evidence.")
 
+CORR = " The model is tied to /repo on every run by a differential correspondence harness (Go, real keys/certificates/files/processes) and by translators that regenerate coq/gen/*.v from the source; an oracle independent of the model locates failing inputs."
 CLAIMED = {
-    # id: (technique, level text, design_ref, extra note)
-    'C18': ("Coq proof: replacer model = declarative single pass, permutation invariance, frame; model tied to SubstituteParameters by differential correspondence",
-            "Theorems for all layouts, dictionaries and strings (any length): the model of strings.Replacer/SubstituteParameters equals a declarative single left-to-right pass, is invariant under every permutation of the dictionary, changes exactly the four fields (erase_layout equality), rejects exactly the invalid names. The model is compared with the Go code on generated layouts on every run; an independent oracle of the property text locates failing inputs.",
+    'C01': ("Coq proof of pipeline-stage theorems (signature stage first, reject with empty trace) + pinned source skeleton + end-to-end correspondence",
+            "Theorems over the pipeline model for arbitrary stage components and all inputs: acceptance implies a non-empty key set and a verifying signature for every supplied key on the very metadata whose payload is enforced; failure of that stage rejects with the world untouched and an empty trace (no link read, no sublayout entered, no inspection run) in both entry points; the regenerated statement lists of both entry points equal the pinned ones and run the same stage sequence." + CORR,
+            "DESIGN.md §5 C01", "What a verifying signature means per wrapper is C04; unforgeability (EUF-CMA) is assumed."),
+    'C02': ("Coq proof: counted-iff characterisation, soundness, completeness, permutation invariance of the threshold model; correspondence on real link directories",
+            "Theorems for arbitrary signature/certificate oracles and all layouts and directory listings: an entry is counted iff it was loaded and authorised by the key route or by the certificate route with certificate key id = claimed id; Ok yields a duplicate-free list of at least max(threshold,1) authorised ids; six classes of unauthorised links never count; threshold honest links always suffice whatever else lies in the directory; invariance under every permutation of the loaded map and of layout keys." + CORR,
+            "DESIGN.md §5 C02", "Chain validation and signature primitives are oracles (Go crypto/x509, crypto/*)."),
+    'C03': ("Coq proof: rule model = declarative queue algorithm of the in-toto spec; rule grammar iff; path.Clean lemmas; exhaustive small-universe correspondence",
+            "Theorems for all rule lists, items and artifact maps with clean paths, generic in the glob: VerifyArtifacts' model accepts iff the declarative queue specification does, with the same queue after every rule; UnpackRule accepts exactly the ten token shapes (case-insensitive keywords), never panics, never ignores a malformed rule; consumed artifacts never reappear; DISALLOW/REQUIRE characterisations." + CORR,
+            "DESIGN.md §5 C03", "Unclean artifact names are covered by model-vs-code correspondence and the go_clean lemmas only."),
+    'C04': ("Coq proof over sign/dump-load/set-payload histories of any length, both wrappers; correspondence with real keys and independent crypto",
+            "Theorems for every operation history: every key that signed since the last payload change verifies afterwards (both wrappers, across dump/load); acceptance reduces to a stored signature selected as the wrapper prescribes that the primitive accepts over exactly canon(to_json) resp. the DSSE PAE of the stored bytes; exact iff-characterisation of VerifySignature; corrupted signatures and foreign key ids rejected; hex/base64 round trips." + CORR,
+            "DESIGN.md §5 C04", "sign/verify primitives are Section variables with the single hypothesis verify(sign) = true; EUF-CMA is the informal reading."),
+    'C05': ("Coq proof: reduce accepts iff all counted links agree (finite-map equality), permutation invariance, rules only on counted links, summary spec",
+            "Theorems: ReduceStepsMetadata's model accepts a step iff all its counted links are links agreeing on materials and products, independent of iteration order; the step rules are evaluated on links taken from the counted map only; the summary link has the requested name, first-step materials and last-step products (empty link without steps)." + CORR,
+            "DESIGN.md §5 C05", ""),
+    'C06': ("Coq proof: time.Parse model = explicit shape predicate with civil-date arithmetic; accept iff well-formed and not expired; pipeline theorem: expired => empty trace",
+            "Theorems for all strings and instants: the transcription of time.Parse for the in-toto layout parses exactly the strings of the shape YYYY-MM-DDTh[h]:mm:ss[frac]Z with valid calendar values to their instant; VerifyLayoutExpiration's model accepts iff such an instant exists and is not in the past (saturating Duration keeps the sign); pipeline level: an expired or undated layout is rejected with untouched world and empty trace in both entry points." + CORR,
+            "DESIGN.md §5 C06", "The clock is an input of the model; the harness brackets the real call with two clock readings."),
+    'C07': ("Coq proof: attribute check iff exact-set/wildcard/empty semantics; step accepted iff chain_ok and one constraint satisfied; root-order invariance",
+            "Theorems: checkCertConstraint's model is Ok iff wildcard or the normalised value list equals the constraint as a duplicate-free set; Check and Step.CheckCertConstraints are Ok iff the certificate parses, chains, and one single constraint is satisfied on all five attributes and the root list; no constraints => reject; wildcard-root completeness; invariance under permutation of root ids." + CORR,
+            "DESIGN.md §5 C07", "X.509 path validation is the oracle chain_ok (Go crypto/x509), exercised with real chains whose validity is known by construction."),
+    'C08': ("Coq proof: recursive resolution relation, failure propagation, Enter events only for counted layout links; correspondence on nested chains on disk",
+            "Theorems for arbitrary components: an accepting verification resolved every counted layout-typed link by a full verification with that functionary's key, the sub-directory and no parameters, and replaced it by the returned summary; any failing sublayout fails the whole; a sublayout is entered only if it is an entry of the counted map, whatever the outcome; events of a sublayout lie below its own directory." + CORR,
+            "DESIGN.md §5 C08", "Recursion depth is bounded by explicit fuel (nesting depth of the link directory tree)."),
+    'C09': ("Coq proof: inspection execution relation (all, in order, each in predecessor's world, zero status, after step rules); correspondence with real commands and directories",
+            "Theorems: on acceptance every inspection ran in layout order, each in the world its predecessor left and returning zero, after all step rules of that level passed, and the inspection rules saw exactly the returned links merged with the reduced step links; an unstartable or non-zero command rejects and stops; no inspection runs unless the step checks passed." + CORR,
+            "DESIGN.md §5 C09", "Process semantics and artifact recording are C14/C13; here commands come from a catalogue with tabulated effects."),
+    'C10': ("Coq proof of permutation invariance of the verdict- and summary-relevant stages; purity carried by correspondence on histories",
+            "Theorems: layout-signature stage, parameter substitution, threshold stage (C02) and link reduction give the same result for every order of the association lists that stand for Go maps; the reduced link (hence the summary) is the same link for every order. Purity is checked on histories: the same in-memory objects verified up to 4 times with equal/different parameters, each 8-24 times, caller-owned objects serialised before/after, fresh-copy comparison." + CORR,
+            "DESIGN.md §5 C10", "Purity of Go code cannot be a theorem about a pure model; it is runtime evidence. Sublayouts whose inspections have side effects are executed in map order (documented limitation)."),
+    'C11': ("Coq proof: canonical form permutation-invariant, injective (parse back), OLPC reference, non-integral refused, DSSE payload parses back; schema regenerated from struct tags",
+            "Theorems over JSON values and the schema regenerated from the Go struct tags: canon is invariant under member order at any depth, injective up to member order (parse_canon(canon v) = sort v), equals the OLPC reference, refuses non-integral/out-of-range numbers; to_json is injective on well-typed metadata; the DSSE payload bytes are valid JSON that parses back to the value for all valid-UTF-8 strings." + CORR,
+            "DESIGN.md §5 C11", "float64 -> literal mapping and invalid-UTF-8 sanitisation are Go's (validated by correspondence)."),
+    'C12': ("Coq proof on the JSON tree level: load(dump m) = m in both wrappers, load Ok iff file strict, loaders agree, validator iff explicit format rules",
+            "Theorems: dumped metadata loads back to equal payload and signatures in either wrapper for every member order; load is Ok exactly for strict files (required fields, no unknown field at any struct level of the payload, schema types, known _type, in-toto payload type, non-null parts); the deprecated loader agrees on legacy files; ValidateMetablock's model is Ok iff the explicit conjunction of format rules." + CORR,
+            "DESIGN.md §5 C12", "JSON lexing is encoding/json's; PEM/key parsing is an oracle; documented readings (case-insensitive field names, null = absent) are not flagged."),
+    'C13': ("Coq proof: record = exactly the reachable regular files with right keys/digests; errors never partial; no false cycle; snapshot order; match-products partition",
+            "Theorems over an inductive filesystem tree (files, directories, symlinks): RecordArtifacts' model returns one entry per reachable regular file keyed by the stripped path with digests of the (normalised) bytes for exactly the requested algorithms; unreadable/unknown algorithm/colliding names/real cycles give errors, never a partial map; acyclic trees never give the cycle error; run/record snapshots; three-way difference of match-products." + CORR,
+            "DESIGN.md §5 C13", "OS walk/symlink semantics are modelled and compared with the real OS on every run; gitignore matching and SHA-2 are oracles."),
+    'C14': ("Coq proof over a pipe/process transition system for every program, capacity and schedule: no deadlock, termination measure, complete capture; strategy regenerated from source",
+            "Theorems: for the concurrent draining strategy (regenerated from RunCommand's AST) every reachable non-final state has a successor, a measure strictly decreases on every step (no fairness needed), and every final state holds the in-order concatenation per stream and the exact status (-1 for a signal), for all child programs, pipe capacities, chunkings and schedules; the sequential strategy has a constructed deadlock." + CORR,
+            "DESIGN.md §5 C14", "Kernel pipes, os/exec internals and scheduling are outside the model; the deadline-bounded real runs are runtime evidence."),
+    'C17': ("Coq proof: glob model = documented grammar (parser + denotation) for all valid-UTF-8 patterns and all names; Bad iff malformed; exhaustive correspondence",
+            "Theorems for patterns and names of any length: the transcription of match.go equals the declarative grammar semantics (three-valued) for every valid-UTF-8 pattern; for all patterns a reported match is justified by the grammar, the result is Bad exactly for malformed patterns, and the panic outcomes are unreachable; Set.Filter keeps exactly the matching names." + CORR,
+            "DESIGN.md §5 C17", "For patterns that are not valid UTF-8 only soundness is proved (a counterexample to equality is recorded)."),
+    'C18': ("Coq proof: replacer model = declarative single pass, permutation invariance, frame; correspondence with SubstituteParameters",
+            "Theorems for all layouts, dictionaries and strings: the model of strings.Replacer/SubstituteParameters equals a declarative single left-to-right pass, is invariant under every permutation of the dictionary, changes exactly the four fields (erase_layout equality), rejects exactly the invalid names." + CORR,
             "DESIGN.md §5 C18", ""),
+    'C19': ("Coq proof: same pair => same id across forms; canonical key description injective on real bytes; private iff private material; parse order; PEM encoder injective",
+            "Theorems for every SHA-256: private, public and certificate forms of one pair give the same key description and id; the canonical description is jointly injective (equal ids of different keys would be a hash collision); the private half is present iff private material was parsed; default type/scheme tables; non-keys refused." + CORR,
+            "DESIGN.md §5 C19", "pem.Decode and the x509 parsers are oracles; SVID conversion (internal package) is not exercised."),
+    'C20': ("Coq proof: link-name / loader-glob compatibility from the regenerated format constants; verify exit iff library; CLI call skeleton regenerated from cmd/*.go; real binary driven through histories",
+            "Theorems: for plain step names and hex key ids the file name written by run/record is matched by the verifier's glob and keyed by the signer's id (Sprintf interpreter over the regenerated constants); verify's exit status is 0 iff every input loads and the library accepts; obligations over the regenerated command skeletons (errors returned, formats used, flag wiring). The real binary is built from the tree and driven through generated supply-chain histories with tamperings; exit status compared with the library and ground truth.",
+            "DESIGN.md §5 C20", "cobra flag parsing and process exit are runtime; the honest-chain-accepted direction is carried by the harness oracle."),
 }
 
 PENDING_REASON = "check not built yet in this revision of /verif (work in progress; the design claims it, see DESIGN.md §5)"
